@@ -6,6 +6,10 @@
 #   read_script(text, shell, command) -> dict     (see bottom of file for the layout)
 #   string_constants(text, shell)     -> list
 #
+# "tr" is the pure join of the MATCH tables ((state, item) -> target) with the COMPLETION tables (level, state ->
+# items); "t": -1 = offered but no match entry, "lv": -1 = matched but offered at no level.  Anomalies starting with
+# "lookup:" (fish only) say that the emitted code indexes a table differently from the table's own pairing.
+#
 # Table forms handled
 #   bash/zsh  [local|declare] [-a|-A] NAME=( w.. | [k]=w .. )   NAME[k]=w   NAME=w      w = "..", '..', bare
 #             two-level tables are strings holding an initialiser:  NAME[state]="([id]=to ...)"
@@ -365,7 +369,7 @@ class _N(object):
 
 def _int(x, an, what):
     t = x.dec if isinstance(x, W) else x
-    if isinstance(t, str) and re.match(r"^\d+$", t):
+    if isinstance(t, str) and re.fullmatch(r"[0-9]+", t):
         return int(t)
     an.append("%s: %r is not a number" % (what, t))
     return None
@@ -710,11 +714,12 @@ def _registered(text, shell):
     pats = {"bash": [r"^complete\b.*?-F[ \t]+\S+[ \t]+(\S+)[ \t]*$"], "fish": [r"^complete --command (\S+)"],
             "zsh": [r"^#compdef[ \t]+(\S+)", r"^[ \t]*compdef[ \t]+\S+[ \t]+(\S+)[ \t]*$"],
             "pwsh": [r"^Register-ArgumentCompleter\b.*?-CommandName[ \t]+'((?:[^']|'')*)'"]}
-    return [m.group(1) for p in pats[shell] for m in re.finditer(p, text, re.M)]
+    return [m.group(1).replace("''", "'") if shell == "pwsh" else m.group(1) for p in pats[shell] for m in re.finditer(p, text, re.M)]
 
 
 def _read(text, shell, command):
-    res = {"ok": False, "error": "", "registered": "", "commands": {}, "main": {}, "subs": [], "sub_ids": []}
+    res = {"ok": False, "error": "", "registered": "", "commands": {}, "subs": [], "sub_ids": [],
+           "main": {"start": -1, "literals": [], "tr": [], "anomalies": [], "max_level": -1}}
     consts = []
     if shell not in BASE:
         res["error"] = "unknown shell %r" % shell
@@ -779,6 +784,8 @@ def _read(text, shell, command):
         unused(env, N)
         res["subs"].append(_build(N, shell, res["commands"], {}, consts))
         res["sub_ids"].append(i)
+    refd = set(t["l"]["sub"] for t in res["main"]["tr"])
+    res["main"]["anomalies"] += ["within-word function %d is not referenced by the main tables" % i for i in sub_ids if subpos[i] not in refd]
     if sub_ids and drv is None:
         res["main"]["anomalies"].append("within-word functions present but no _%s_subword driver" % command)
     m = res["main"]
@@ -801,5 +808,5 @@ def string_constants(text, shell):
     reg = _registered(text, shell) if shell in BASE else []
     if not reg:
         return []
-    _, consts = _read(text, shell, reg[0].replace("''", "'") if shell == "pwsh" else reg[0])
+    _, consts = _read(text, shell, reg[0])
     return [{"raw": w.raw, "decoded": w.dec, "role": role, "anomalies": list(w.an)} for role, w in consts]
